@@ -24,13 +24,16 @@ from vlib.verdict import Check, machinery_failure  # noqa: E402
 PROP = "C16"
 
 A_SRC = {
-    "src/amod.f90": ("module amod\n  !! module of A\n  implicit none\n  private\n  public :: base_t, asub, agen, avar, afun\n"
+    "src/amod.f90": ("module amod\n  !! module of A\n  implicit none\n  private\n  public :: base_t, asub, agen, avar, afun, other_t\n"
                      "  integer :: avar = 1 !! public variable\n  integer :: hidden_var !! private variable\n"
+                     # a second type whose component and binding carry the same names as base_t's (members are per type)
+                     "  type :: other_t\n    !! another public type\n    integer :: comp\n  contains\n    procedure :: tb => asub3\n  end type other_t\n"
                      "  type :: base_t\n    !! public type\n    integer :: comp\n  contains\n    procedure :: tb => asub2\n  end type base_t\n"
                      "  type :: hidden_t\n    integer :: z\n  end type hidden_t\n"
                      "  interface agen\n    !! public generic\n    module procedure asub\n  end interface agen\n"
                      "contains\n  subroutine asub(x)\n    !! public subroutine\n    integer :: x\n  end subroutine asub\n"
                      "  subroutine asub2(self)\n    class(base_t) :: self\n  end subroutine asub2\n"
+                     "  subroutine asub3(self)\n    class(other_t) :: self\n  end subroutine asub3\n"
                      "  function afun(x) result(r)\n    !! public function\n    integer :: x, r\n    r = x\n  end function afun\n"
                      "  subroutine hidden_sub()\n  end subroutine hidden_sub\nend module amod\n"),
     # a facade module that re-exports amod's entities under new names
@@ -38,9 +41,9 @@ A_SRC = {
                      "  public :: api_run, api_t, api_fun\nend module aapi\n"),
     "src/utils.f90": "module utils\n  !! A's utils\n  implicit none\n  type :: vec_t\n    real :: x\n  end type vec_t\ncontains\n  subroutine helper()\n  end subroutine helper\nend module utils\n",
 }
-A_PUBLIC = {("amod", "base_t"), ("amod", "asub"), ("amod", "agen"), ("amod", "avar"), ("amod", "afun"),
+A_PUBLIC = {("amod", "base_t"), ("amod", "asub"), ("amod", "agen"), ("amod", "avar"), ("amod", "afun"), ("amod", "other_t"),
             ("utils", "vec_t"), ("utils", "helper")}
-A_PRIVATE = {("amod", "hidden_var"), ("amod", "hidden_t"), ("amod", "hidden_sub"), ("amod", "asub2")}
+A_PRIVATE = {("amod", "hidden_var"), ("amod", "hidden_t"), ("amod", "hidden_sub"), ("amod", "asub2"), ("amod", "asub3")}
 
 B_SRC = {
     "src/bmod.f90": ("module bmod\n  !! B uses A: see [[asub]] and [[base_t]] and [[amod]]\n  use amod\n  use utils\n  implicit none\n"
@@ -195,7 +198,7 @@ def evaluate(case):
         if case["fault"] == "none":
             for rel, tail, frag in REQUIRED_FRAGMENTS:       # members of A's types, also of a type reached through the facade
                 pg = site.parse_page(bdoc, rel) if os.path.exists(os.path.join(bdoc, rel)) else None
-                if pg is not None and not any(urllib.parse.urlsplit(u).path.endswith(tail) and urllib.parse.urlsplit(u).fragment == frag for _, _, u in pg.links):
+                if pg is not None and not any(urllib.parse.urlsplit(u).path.endswith(tail) and urllib.parse.urlsplit(u).fragment in (frag, frag + "~2") for _, _, u in pg.links):
                     bad.append(("missing-external-link", f"{rel} inherits {frag.split('-')[-1]} from A's type but has no link to A's {tail}#{frag}"))
         if case["fault"] == "none" and ext_links == 0:
             bad.append(("no-external-links", "B refers to A's entities but no link into A's documentation was generated"))
